@@ -15,10 +15,13 @@ Definition renders_every_part (o : ropts) (fd : func_desc) (args : list string) 
             /\ parse_call s = Some (expected_ast o fd args)
             /\ (ro_with_alias o = false -> balanced s = true).
 
+(* frame bounds denote the numbers given: every integer n, every non-integer numeral text s (str() of a float,
+   Decimal or numeric str: raw_ok), and UNBOUNDED exactly when no number was given *)
 Definition edges_denote : Prop :=
-  (forall d n, (0 <= n)%Z -> denote_edge (render_edge (d, Some n)) = Some (d, Some n))
+  (forall d n, (0 <= n)%Z -> denote_edge (render_edge (d, Some (OInt n))) = Some (d, Some (OInt n)))
+  /\ (forall d s, raw_ok s = true -> denote_edge (render_edge (d, Some (ORaw s))) = Some (d, Some (ORaw s)))
   /\ (forall d, denote_edge (render_edge (d, None)) = Some (d, None))
-  /\ (forall d v, prefix "UNBOUNDED" (render_edge (d, v)) = true <-> v = None).
+  /\ (forall d v, offset_ok v = true -> (prefix "UNBOUNDED" (render_edge (d, v)) = true <-> v = None)).
 
 Definition distinct_splice_ok : Prop :=
   forall name rest, splice (name ++ "(" ++ rest) (String.length name + 1) = name ++ "(" ++ "DISTINCT " ++ rest.
@@ -56,7 +59,8 @@ Definition C18_full_statement : Prop :=
 
 Lemma edges_denote_holds : edges_denote.
 Proof.
-  split; [intros; apply denote_render_edge|]. split; [intros; apply denote_render_edge|]. exact unbounded_only_none.
+  split; [intros; apply denote_render_edge; reflexivity|]. split; [intros; apply denote_render_edge; assumption|].
+  split; [intros; apply denote_render_edge; reflexivity|]. exact unbounded_only_none.
 Qed.
 
 Lemma catalogue_ok_holds : catalogue_ok.
@@ -124,8 +128,8 @@ Example C18_fixed_filter_examples :
   lookup_wrapper "pypika.functions" "Sum" catalogue = Some w_sum
   /\ apply_ops w_sum (plain_func "SUM") [OFilter []] = Ok (plain_func "SUM")
   /\ apply_ops w_sum (plain_func "SUM") [OFilter [None]; OFilter [None; None]] = Ok (plain_func "SUM")
-  /\ match apply_ops w_sum (plain_func "SUM") [OFilter [None; Some """a"">1"; None]; OFilter []; OFilter [Some "x=2"]] with
-     | Ok fd => get_sql no_alias fd ["""a"""] | Err e => Err e end = Ok "SUM(""a"") FILTER(WHERE ""a"">1 AND x=2)".
+  /\ match apply_ops w_sum (plain_func "SUM") [OFilter [None; Some (false, """a"">1"); None]; OFilter []; OFilter [Some (true, "x=2 OR y=3")]] with
+     | Ok fd => get_sql no_alias fd ["""a"""] | Err e => Err e end = Ok "SUM(""a"") FILTER(WHERE ""a"">1 AND (x=2 OR y=3))".
 Proof. vm_compute. repeat split; reflexivity. Qed.
 
 (* regression facts for the upstream fixes, on the model *)
@@ -139,7 +143,7 @@ Proof. intros fd k b ab fd' H. unfold set_frame in H. destruct (fd_frame fd); [d
 Print Assumptions C18_fixed_frame_implies_over.
 
 Example C18_fixed_frame_example :
-  match set_frame (plain_func "SUM") Rows (BEdge Preceding (Some 3%Z)) None with
+  match set_frame (plain_func "SUM") Rows (BEdge Preceding (Some (OInt 3%Z))) None with
   | Ok fd => get_sql no_alias fd ["""a"""] | Err e => Err e end = Ok "SUM(""a"") OVER( ROWS 3 PRECEDING)".
 Proof. vm_compute. reflexivity. Qed.
 
@@ -148,9 +152,26 @@ Proof. reflexivity. Qed.
 Print Assumptions C18_fixed_custom_function.
 
 (* the fixed defect (5862a90): bound 0 is a number, not UNBOUNDED - now a theorem for every n *)
-Theorem C18_bound_zero : render_edge (Preceding, Some 0%Z) = "0 PRECEDING" /\ render_edge (Following, None) = "UNBOUNDED FOLLOWING".
+Theorem C18_bound_zero : render_edge (Preceding, Some (OInt 0%Z)) = "0 PRECEDING" /\ render_edge (Following, None) = "UNBOUNDED FOLLOWING".
 Proof. vm_compute. split; reflexivity. Qed.
 Print Assumptions C18_bound_zero.
+
+(* non-integral offsets (legal for RANGE frames) are written as given; "0.5" is not "0" *)
+Example C18_fractional_bounds :
+  render_frame (Range, BEdge Preceding (Some (ORaw "0.5")), Some (BEdge Following (Some (ORaw "1.5"))))
+    = "RANGE BETWEEN 0.5 PRECEDING AND 1.5 FOLLOWING"
+  /\ denote_edge "0.5 PRECEDING" = Some (Preceding, Some (ORaw "0.5"))
+  /\ denote_edge "0 PRECEDING" = Some (Preceding, Some (OInt 0%Z))
+  /\ forallb raw_ok ["0.5"; "2.25"; "1e-05"; "-1.5"; "05"] = true /\ raw_ok "5" = false /\ raw_ok "UNBOUNDED" = false.
+Proof. vm_compute. repeat split. Qed.
+
+(* DISTINCT goes after the wrapper's own parenthesis only, also when an argument or a criterion contains NAME( *)
+Example C18_distinct_once :
+  function_sql {| fd_name := "SUM"; fd_schema := None; fd_alias := None; fd_special := None; fd_distinct := true;
+                  fd_filters := [(false, "SUM(""b"")>1")]; fd_include_filter := true; fd_partition := []; fd_orderbys := [];
+                  fd_include_over := false; fd_frame := None; fd_bare := false |} ["CHECKSUM(""a"")"]
+  = Ok "SUM(DISTINCT CHECKSUM(""a"")) FILTER(WHERE SUM(""b"")>1)".
+Proof. vm_compute. reflexivity. Qed.
 
 (* a DISTINCT splice one position early would land before the parenthesis *)
 Theorem C18_splice_position : forall name rest,
@@ -169,16 +190,16 @@ Proof. vm_compute. repeat split. Qed.
 
 Definition ex_fd : func_desc :=
   {| fd_name := "FIRST_VALUE"; fd_schema := Some """sc"""; fd_alias := Some "al"; fd_special := Some "IGNORE NULLS";
-     fd_distinct := false; fd_filters := ["""fa""=1"; """fb"">2"]; fd_include_filter := true;
+     fd_distinct := false; fd_filters := [(false, """fa""=1"); (true, """fb"">2 OR ""fc""=3"); (false, """fd""=4 AND ""fe""=5")]; fd_include_filter := true;
      fd_partition := ["""w0"""; "COALESCE(""v1"",6001)"]; fd_orderbys := [("""w10""", Some Desc); ("""w11""*7011", None)];
-     fd_include_over := true; fd_frame := Some (Range, BEdge Preceding (Some 1000000000%Z), Some BCurrentRow);
+     fd_include_over := true; fd_frame := Some (Range, BEdge Preceding (Some (OInt 1000000000%Z)), Some BCurrentRow);
      fd_bare := false |}.
 Definition ex_opts : ropts := {| ro_with_alias := true; ro_quote := Some """"; ro_alias_quote := None; ro_as_keyword := true |}.
 
 Example C18_example :
   texts_ok ex_fd = true /\ combo_ok ex_fd = true /\ tail_ok (tail_text ex_opts ex_fd) = true
   /\ get_sql ex_opts ex_fd ["""s0"""; "COALESCE(""n1"",2001)"] =
-     Ok ("""sc"".FIRST_VALUE(""s0"",COALESCE(""n1"",2001) IGNORE NULLS) FILTER(WHERE ""fa""=1 AND ""fb"">2) " ++
+     Ok ("""sc"".FIRST_VALUE(""s0"",COALESCE(""n1"",2001) IGNORE NULLS) FILTER(WHERE ""fa""=1 AND (""fb"">2 OR ""fc""=3) AND ""fd""=4 AND ""fe""=5) " ++
          "OVER(PARTITION BY ""w0"",COALESCE(""v1"",6001) ORDER BY ""w10"" DESC,""w11""*7011 " ++
          "RANGE BETWEEN 1000000000 PRECEDING AND CURRENT ROW) AS ""al""")
   /\ option_map a_args (parse_call ("COUNT(DISTINCT ""a"",f(1,2) AS T) FILTER(WHERE x) OVER( ROWS 0 PRECEDING)"))
@@ -187,9 +208,9 @@ Proof. vm_compute. repeat split. Qed.
 
 Example C18_distinct_example :
   function_sql {| fd_name := "COUNT"; fd_schema := None; fd_alias := None; fd_special := None; fd_distinct := true;
-                  fd_filters := ["""fa""=1"]; fd_include_filter := true; fd_partition := []; fd_orderbys := [];
+                  fd_filters := [(true, """fa""=1 OR ""fb""=2")]; fd_include_filter := true; fd_partition := []; fd_orderbys := [];
                   fd_include_over := false; fd_frame := None; fd_bare := false |} ["*"]
-  = Ok "COUNT(DISTINCT *) FILTER(WHERE ""fa""=1)".
+  = Ok "COUNT(DISTINCT *) FILTER(WHERE ""fa""=1 OR ""fb""=2)".
 Proof. vm_compute. reflexivity. Qed.
 
 (* the catalogue is not empty and contains the wrappers with special clauses in the stated form *)
